@@ -34,14 +34,15 @@ def selections(rng, names):
     return out
 
 
-def run_case(ctx, rep, spec, variables, limit, model, path=None, P=None, start=None, cli=False, before=None):
+def run_case(ctx, rep, spec, variables, limit, model, path=None, P=None, start=None, cli=False, before=None, slash=False):
     from amr_kitchen.colander.colander import Colander
     if path is None:
         path = ctx.newdir("c05in_")
         plotgen.materialize(spec, path)
         P = oracle.parse(path)
     out = ctx.newdir("c05out_")
-    case = {"spec": spec, "variables": variables, "limit": limit, "cli": cli, "before": before}
+    case = {"spec": spec, "variables": variables, "limit": limit, "cli": cli, "before": before, "slash": slash}
+    if slash: rep.count("input-named-with-a-trailing-separator")
     if cli: rep.count("console-script")
     if before is not None:
         # the output directory already holds another strain of the same input (same boxes per file, same number of
@@ -64,11 +65,13 @@ def run_case(ctx, rep, spec, variables, limit, model, path=None, P=None, start=N
     rep.count(f"kept:{min(len(kept), 4)}"); rep.count(f"limit:{limit}")
     try:
         with alarm(120), quiet(), pools.controlled(start=start):
+            # the input named the way shell completion leaves it (a trailing separator), the output without one
+            pin = path + "/" if slash else path
             if cli:
                 from .. import tools
-                tools.colander_cli(path, out, variables, limit)
+                tools.colander_cli(pin, out, variables, limit)
             else:
-                Colander(plotfile=path, limit_level=limit, output=out, variables=list(variables)).strain()
+                Colander(plotfile=pin, limit_level=limit, output=out, variables=list(variables)).strain()
     except SystemExit as e:
         rep.fail(f"the colander console script exited ({e.code}) on a valid invocation", case)
         return
@@ -217,7 +220,7 @@ def run(ctx, rep, model=True):
         for j, v in enumerate(sels):
             limit = [None, 0, nlev - 1, max(0, nlev - 2)][j % 4]
             start = [None, pools.order_reversed][j % 2]
-            run_case(ctx, rep, spec, v, limit, model, path, P, start, cli=(j % 4 == 1 and i % 2 == 0))
+            run_case(ctx, rep, spec, v, limit, model, path, P, start, cli=(j % 4 == 1 and i % 2 == 0), slash=(j % 5 == 2))
         if len(names) >= 2:
             nm = list(names)
             run_case(ctx, rep, spec, [nm[0]], None, model, path, P, before=[nm[-1]])
@@ -230,4 +233,4 @@ def replay(ctx, rep, obj, model=True):
     c = obj["case"]
     if "relative_session" in c:
         relative_session(ctx, rep, c["relative_session"]); return
-    run_case(ctx, rep, c["spec"], c["variables"], c["limit"], model, cli=c.get("cli", False), before=c.get("before"))
+    run_case(ctx, rep, c["spec"], c["variables"], c["limit"], model, cli=c.get("cli", False), before=c.get("before"), slash=c.get("slash", False))
